@@ -435,6 +435,22 @@ func c01(r *engine.Report, p *engine.Program) {
 		r.Check("R5-direct-neighbour", "updateRoutingTable: relaxation on strict improvement (cost[node]+edge < cost[neighbour])", urt.Pos(), relax, "a strict comparison with the sum cost[node]+edge on the smaller side guards the update", "no strict comparison 'cost[node]+edge < cost[neighbour]' guards the relaxation (a non-strict test lets equal-cost paths flip the predecessor forever)")
 	}
 	ownAdvertRules(r, p)
+	// R7 the local row stays truthful: a session that is merely being refused never removes the
+	// adjacency of the live session with the same peer (shared with C11-R4 / C07-O8)
+	if rp := p.Func("(*netceptor.Netceptor).runProtocol"); rp != nil {
+		conns := p.Field("netceptor", "Netceptor", "connections")
+		var ins *ssa.MapUpdate
+		for _, a := range engine.FieldAccessesIn(rp, conns) {
+			if mu, ok := a.Instr.(*ssa.MapUpdate); ok {
+				ins = mu
+			}
+		}
+		if ins != nil {
+			noEarlyRemoval(r, p, "R7-no-collateral-removal", rp, ins, engine.Unwrap(ins.Key), removalsIn(p, rp, removalWrappers(p)))
+		} else {
+			r.Add("R7-no-collateral-removal", "runProtocol: connection-table insertion", rp.Pos(), engine.Violated, "insertion site not found")
+		}
+	}
 }
 
 // ownAdvertRules (C01 R6): what this node tells the others about itself is exactly its connection
